@@ -1622,6 +1622,33 @@ FUNCS = [
                    ('if !plan.delete.is_empty() { for rel in &plan.delete { let _ = std::fs::remove_file(dst.join(rel)); } eprintln!("Deleted {} stale file(s)", plan.delete.len()); }', ""),
                    ("report( start, &progress, &plan, &src.display().to_string(), &dst.display().to_string(), opts.verbose, )",
                     "return reportGen (failedGen progress)")]),
+    # ---- run_remote once more, from the directories to the result, in the world of per-file outcomes
+    dict(group="oneway", file="src/bin/copia/incremental.rs", name="run_remote (from `collect_dirs` to the result: outcomes)", fn="run_remote", sig=None,
+         slice=("let dirs = collect_dirs(&plan.transfer);", "report(start, &progress, &plan, &src_desc, &dst_desc, opts.verbose)"),
+         lean="def runRemoteOutcomeGen {K : Type} (push : Bool) (deliver_push deliver_pull : K → Option Nat) (mkdirs_remote_ok mkdirs_local_ok : Bool) (transfer : List K) : Bool := Id.run do\n"
+              "  -- world: the direction, whether the directories could be made (remote for a push, local for a pull), and for each planned file what\n"
+              "  -- `transfer_file_to_remote` / `deliver_pull` returns (some size / none = Err); counters and `report` as translated; true = Ok(())\n"
+              "  let mut progress : Nat × Nat × Nat := (0, 0, 0)",
+         calls={}, paths={},
+         block_heads=[dict(rust="for rel in &plan.transfer {", indent=2, before="for rel in transfer do")],
+         verbatim=[("let dirs = collect_dirs(&plan.transfer);", ""),
+                   ("match dir { Dir::Push => create_remote_dirs(host, remote_root, &dirs).await?, Dir::Pull => create_local_dirs(local_root, &dirs)?, }",
+                    "if push then\n  if !mkdirs_remote_ok then\n    return false\nelse\n  if !mkdirs_local_ok then\n    return false"),
+                   ("let semaphore = Arc::new(Semaphore::new(opts.jobs));", ""),
+                   ("let progress = TransferProgress::new(plan.transfer.len() as u64);", ""),
+                   ("let mut handles = Vec::with_capacity(plan.transfer.len());", ""),
+                   ("let mtime = src_meta.get(rel).map(|m| m.mtime);", ""),
+                   ('let remote_file = format!("{}/{}", remote_root, rel.display());', ""), ("let local_file = local_root.join(rel);", ""),
+                   ("let host = host.to_string();", ""), ("let sem = Arc::clone(&semaphore);", ""),
+                   ("let prog = progress.clone();", ""), ("let rel_disp = rel.display().to_string();", ""),
+                   ("handles.push(tokio::spawn(async move { let _permit = sem.acquire().await; let res = match dir { "
+                    "Dir::Push => transfer_file_to_remote(&local_file, &host, &remote_file, mtime).await, "
+                    "Dir::Pull => deliver_pull(&host, &remote_file, &local_file, mtime).await, }; "
+                    "match res { Ok(size) => prog.record_ok(size), Err(e) => prog.record_err(&rel_disp, &e), } }));",
+                    "let res := if push then deliver_push rel else deliver_pull rel\nprogress := (match res with\n  | some size => recordOkGen progress size\n  | none => recordErrGen progress)"),
+                   ("join_handles(handles).await;", ""),
+                   ("if !plan.delete.is_empty() { apply_remote_deletes(dir, host, remote_root, local_root, &plan.delete).await; }", ""),
+                   ("report(start, &progress, &plan, &src_desc, &dst_desc, opts.verbose)", "return reportGen (failedGen progress)")]),
     dict(group="oneway", file="src/bin/copia/incremental.rs", name="run_remote", sig=None,
          lean="def runRemoteGen {K C : Type} [DecidableEq K] (le : K → K → Bool) (excl : K → Bool) (delete_ dry_run : Bool)\n"
               "    (S D : Copia.OneWay.Tree K C) : Copia.OneWay.Result K C := Id.run do\n"
